@@ -20,11 +20,14 @@ THEOREMS = [
     "Nix.C19.C19_listed_setters_touch_self",
     "Nix.C19.C19_listed_refusal_unstamped",
     "Nix.C19.C19_auto_on_local",
+    "Nix.C19.C19_accepted_outcome_determined",
     "Nix.C19.C19_only_target",
+    "Nix.C19.C19_untargeted_history",
     "Nix.C19.C19_refused_unchanged",
     "Nix.C19.C19_listed_refused_unchanged",
     "Nix.C19.C19_getters_read_store",
     "Nix.C19.C19_observe_is_stored",
+    "Nix.C19.C19_create_stamps_now",
     "Nix.C19.C19_force_roundtrip",
     "Nix.C19.C19_force_refused_unchanged",
     "Nix.C19.C19_force_only_own_stamp",
@@ -37,14 +40,25 @@ ASSUMPTIONS = [
     "the range the property names; outside it the model follows the code (unpadded years < 1000 do not round-trip)",
     "the clock is `nixio.util.now_int` (the name every nixio module calls), replaced by a controlled value during the "
     "differential runs; one operation reads one clock value",
-    "which setter carries the auto-update idiom is regenerated from the source on every run (Generated/Setters.lean); "
-    "that a setter's validation precedes its write, and what a creation leaves when the clock is outside the years "
-    "1..9999, is covered by the correspondence only / not modelled",
+    "on which paths of which setter the auto-update idiom runs is regenerated from the source on every run "
+    "(Generated/Setters.lean: outcomes = exit x touch state per member, an over-approximation of the real paths: "
+    "conditions are not interpreted, every statement that calls / subscripts / deletes is a possible raise point, "
+    "methods of other objects are assumed not to touch this object's stamps); a call of the model takes one of these "
+    "outcomes, the harness does not observe which path the implementation took (it says accepted / refused, the driver "
+    "picks the outcome, and refuses to predict when the returning paths of a member disagree); that a setter's "
+    "validation precedes its write, and what a creation leaves when the clock is outside the years 1..9999, is covered "
+    "by the correspondence only / not modelled",
+    "the created_at / updated_at getters are modelled through their generated body shape (parse the stored attribute); "
+    "handles have no state in the model, which the oracle checks on the implementation by reading every stamp through "
+    "fresh and kept handles",
     "uuid4 freshness; HDF5 attribute storage modelled, not verified",
 ]
 TRUSTED_EXTRA = ["harness/extract/setters.py recognises the idiom `if self.file.auto_update_timestamps: "
                  "self.force_updated_at()` (and the inline variant of feature.py) by AST in every method of every class, "
-                 "verifies the shape of force_created_at / force_updated_at and renders Python's MRO"]
+                 "computes by a path-sensitive flow analysis (if / loops / try / with / early return / raise, calls "
+                 "through self summarised to a fixpoint) the reachable (exit, touch state) pairs of every member, "
+                 "verifies the shape of force_created_at / force_updated_at, renders the body shape of the created_at / "
+                 "updated_at getters and Python's MRO"]
 
 T2100 = 4102444800
 KINDS = ["file", "block", "group", "data_array", "data_frame", "tag", "multi_tag", "source", "section", "property",
@@ -1042,10 +1056,14 @@ def matrix_histories(rng, dist=None):
             seq += [c, sets[-1]]
         off = [sets[0]] + list(clears[:1]) + [sets[-1]]
         clock = rng.randrange(0, T2100 - 10 ** 7)
-        ops = scene_ops(clock, True)
+        # the switch is set at open time or toggled later, by assignment or by re-opening
+        auto0 = rng.random() < 0.6
+        ops = scene_ops(clock, auto0)
+        if not auto0:
+            ops.append(rng.choice([["set_auto", True], ["set_auto", True], ["reopen", True]]))
         for phase, values in (("on", seq), ("off", off)):
             if phase == "off":
-                ops.append(["set_auto", False])
+                ops.append(rng.choice([["set_auto", False], ["set_auto", False], ["reopen", False]]))
             for v in values:
                 clock += rng.choice([1, 2, 59, 3600, 86400])
                 ops.append(["set_clock", clock])
@@ -1204,15 +1222,23 @@ def correspondence(ctx):
     g = Gen(rng)
     histories.append(("sweep", g.sweep()))
     opdist = dict(g.dist)
-    mats = matrix_histories(rng, opdist)
+    # the oracle runs ALL matrix and force histories on the implementation in every tier; the correspondence (model
+    # vs implementation) runs a sample of them in the quick tier — the distribution counts what was actually run
+    holes = {}
+    mats = matrix_histories(rng, holes)
     if ctx.quick():
         mats = rng.sample(mats, min(len(mats), 12))
     for label, h in mats:
         histories.append(("matrix:" + label, h))
-    fh = force_histories(rng, opdist)
+        opdist["matrix." + label] = len([op for op in h if op[0] == "call"])
+    if "matrix.no_value_classes_for" in holes:
+        opdist["matrix.no_value_classes_for"] = holes["matrix.no_value_classes_for"]
+    fh = force_histories(rng)
     if ctx.quick():
         fh = rng.sample(fh, 3)
-    histories += fh
+    for label, h in fh:
+        histories.append((label, h))
+        opdist["force_boundary." + label[6:]] = len([op for op in h if op[0].startswith("force_")])
     for k in range(ctx.budget(14, 150)):
         g = Gen(rng)
         histories.append(("random", g.history(rng.choice([40, 80, 120]))))
@@ -1527,11 +1553,18 @@ MANIFEST = {
                   "for all histories: created_at only changes by force_created_at, updated_at is monotone under "
                   "non-force operations with a non-decreasing clock, nothing but force changes a stamp with the switch "
                   "off, with the switch on every listed attribute setter of every entity kind sets exactly that "
-                  "entity's updated_at to the clock (the setter table is regenerated from the source by AST on every "
-                  "run, so a setter that loses the idiom breaks the build), forced stamps read back also after reopen.",
-    "level_note": "Trusted: Lean kernel; the AST translator for the setter table; Py.Civil as stand-in for CPython's "
-                  "datetime; the differential runs (controlled clock, every setter of every kind, all entities' "
-                  "stamps compared after each call on real HDF5 files) for the hand-written part of the model.",
-    "technique": "Lean 4 proof (decide +kernel day table + induction over operation histories + generated setter "
-                 "table) with differential correspondence",
+                  "entity's updated_at to the clock on EVERY returning path of its body and stamps nothing on any "
+                  "raising path (the table of paths - exit x whether the idiom ran - is regenerated from the source by a "
+                  "path-sensitive AST analysis on every run, so a setter that loses the idiom, or skips it by an early "
+                  "return or a condition, breaks the build on a named theorem), an entity no operation is directed at "
+                  "keeps both stamps over any history, a created entity starts with both stamps = clock, the getters "
+                  "parse the stored attribute (generated getter shapes: no per-object state), forced stamps read back "
+                  "also after reopen, a refused force call changes nothing, forcing one stamp leaves the other.",
+    "level_note": "Trusted: Lean kernel; the AST translator for the setter / getter tables (its flow analysis "
+                  "over-approximates paths; which path a real call takes is not observed); Py.Civil as stand-in for "
+                  "CPython's datetime; the differential runs (controlled clock, every setter of every kind with every "
+                  "class of value incl. clearing ones, all entities' stamps compared after each call on real HDF5 "
+                  "files, read through fresh and kept handles) for the hand-written part of the model.",
+    "technique": "Lean 4 proof (decide +kernel day table + induction over operation histories + generated "
+                 "path-sensitive setter table and getter shapes) with differential correspondence",
 }
